@@ -38,9 +38,12 @@ def read_frames(filename):
 
 
 class LatticeEngine(EngineBase):
-    def __init__(self, wall=-1, timestep=1.0, subcycles=1, temperature=1.0):
+    def __init__(self, wall=-1, timestep=1.0, subcycles=1, temperature=1.0, side_files=False):
         super().__init__("lattice walk", timestep, subcycles)
         self.wall = int(wall)
+        # side_files: every trajectory file gets a companion <name>.side (like the .edr / -1.ener files of real programs),
+        # for configurations that keep such files with output.keep_traj_fnames
+        self.side_files = bool(side_files)
         self.temperature = temperature
         self._beta = 1.0 / temperature
         self.ext = "lat"
@@ -99,6 +102,9 @@ class LatticeEngine(EngineBase):
                     elif x > self.wall:
                         x -= 1
                 step_nr += 1
+        if self.side_files:
+            with open(os.path.join(self.exe_dir, f"{name}.side"), "w") as fh:
+                fh.write(f"{step_nr + 1} frames\n")
         n = path.length
         path.update_energies([0.0] * n, [0.0] * n)
         return success, status
